@@ -637,7 +637,13 @@ pub fn sample(seed: u64, stride: u64) -> Stats {
             if idx % stride != seed % stride {
                 continue;
             }
-            let problems = run_mutant(kind, &bytes, &h, &mut st);
+            // this pass runs under valgrind (25-50x slower): the megabyte-sized inputs are left to the
+            // native and ASan passes, and the CPU / allocation ceilings (calibrated for native speed)
+            // are not applied here — memcheck's own reports and panics are what this pass is for
+            if bytes.len() > (1 << 20) {
+                continue;
+            }
+            let problems: Vec<(String, String)> = run_mutant(kind, &bytes, &h, &mut st).into_iter().filter(|p| p.0.starts_with("panic")).collect();
             if problems.iter().any(|p| p.0.starts_with("panic")) {
                 h.cc = Covercrypt::default();
             }
